@@ -18,7 +18,7 @@ From Coq Require Import List ZArith Bool.
 From ApiFu Require Import Base.Sexp Cost.CostModel Cost.CostSpec Cost.CostProofs.
 From ApiFu Require Val.Values Val.CoerceModel Val.CoerceSpec Val.CoerceProofs Relay.RelayModel.
 From ApiFu Require Import Cost.CostArgs Cost.CostArgsProofs Cost.CostFragments Cost.CostRelay Cost.CostTrace Cost.CostTraceProofs Cost.CostC04Usage Cost.CostC04 Cost.CostProj Cost.CostC04Proj.
-From ApiFu Require Val.BridgeC04Full.
+From ApiFu Require Val.BridgeC04Full Vld.TypeInfoPure ExeA.ArgData ExeA.ArgArgs Pipe.CostCompose Cost.CostRealDoc.
 From ApiFu Require Vld.ProofsTypeInfoValues.
 From ApiFu Require Vld.Ast Vld.ValidatorModel Vld.Hyps Vld.ProofsCommon Val.BridgeC04 Val.BridgeC04Proofs.
 Import ListNotations.
@@ -610,6 +610,72 @@ Theorem C14_projections_cost_calls_partial :
         (map (fun p => match p with (k, l) => (k, CoerceSpec.abs_lit vv l) end) (af_args (c_field c))) = Some (c_args c).
 Proof. exact projections_cost_calls. Qed.
 
+
+(** ** round 6, the whole-document step on the REAL document (Cost/CostRealDoc.v).  C03's composition
+    (Pipe/CostCompose.v) derives the request the cost rule walks from C04's annotated document:
+    [c_ops ES A], [c_frs ES A] with [A = pti_doc qo VS F D] — the real schema [VS] (C04's encoding)
+    and [ES] (the executor-side encoding that has the argument definitions with their default
+    values), fields at any depth, inline fragments, named fragments.
+
+    For a document ACCEPTED by C04's [validate_model repaired]:
+    - every field selection of that request names each argument once (validateArguments is a flat map
+      over the nodes of the document, [InspectProofs.visit_nil_iff]; every field selection of the
+      request is a node of the document) — the first implication of [document_bridge], proved;
+    - every argument literal and every variable default of that request names each input-object
+      field once at every depth ([lit_nodup]): validateValues is a flat map over the values of the
+      document ([rule_values_eq]), every literal of the request is one of them, and a silent
+      validateCoercion has visited every nested object ([C14_coercion_silent_fields_named_once]; the
+      schema's scalars must not swallow list / object literals, [scalars_are_leaves], decidable by
+      [scalars_leavesb]) — the second implication, proved;
+    - hence every call a cost function receives during the walk is REFERENCE-COERCED — no bridge
+      hypothesis, no translation back into C04, any number of fields.
+    STILL NOT PROVED for the real document: the third implication (the variable-usage rule, needed
+    for type conformance of the argument maps): C04's [usage_errs] on the document's own values
+    against C05's [usage_ok] on [l_of_vld v] at the argument types of [ES] — it needs the agreement of
+    the two schema encodings ([Pipe.SchemaAgree.schemas_agree]) threaded through expected types and
+    default flags.  For the translation of the request back into C04 it is proved
+    ([C14_usage_from_c04]), and on projections the whole statement holds
+    ([C14_projections_cost_calls_partial]). *)
+Theorem C14_accepted_document_argument_names_unique : forall pi VS F ES D,
+  ProofsCommon.order_ok pi ->
+  ValidatorModel.validate_model ValidatorModel.repaired pi VS F D = Ast.Done [] ->
+  let Adoc := TypeInfoPure.pti_doc (ValidatorModel.q_unwrap_obj ValidatorModel.repaired) VS F D in
+  forall f,
+    (exists o, In o (CostCompose.c_ops ES Adoc) /\ field_in unit (ao_body o) f) \/
+    (exists p, In p (CostCompose.c_frs ES Adoc) /\ field_in unit (snd p) f) ->
+    CoerceSpec.dup_names (map fst (af_args f)) = false.
+Proof. exact CostRealDoc.accepted_document_argument_names_unique. Qed.
+
+Theorem C14_coercion_silent_fields_named_once : forall pi S, CostRealDoc.scalars_are_leaves S ->
+  forall v t a,
+  ValidatorModel.coercion ValidatorModel.repaired pi S v t a = ValidatorModel.VR [] ->
+  CoerceSpec.lit_nodup (CostCompose.l_of_vld v) = true.
+Proof. exact CostRealDoc.coercion_nil_nodup. Qed.
+
+Theorem C14_accepted_document_calls_reference_coerced :
+  forall pi VS F ES D opname raw o skip_zero fuel dc ctx0 max,
+  ProofsCommon.order_ok pi ->
+  CostRealDoc.scalars_are_leaves VS ->
+  ValidatorModel.validate_model ValidatorModel.repaired pi VS F D = Ast.Done [] ->
+  let Adoc := TypeInfoPure.pti_doc (ValidatorModel.q_unwrap_obj ValidatorModel.repaired) VS F D in
+  let E := ArgData.s_inputs ES in
+  let dt := ArgArgs.dt_oracle ES in
+  CoerceSpec.env_ok E = true ->
+  (forall p, In p raw -> CoerceSpec.jval_ok (snd p) = true) ->
+  chosen_op unit (CostCompose.c_ops ES Adoc) opname = Some o ->
+  forall c, In c (snd (validate_cost_trace unit E dt skip_zero fuel dc ctx0
+                         (CostCompose.c_ops ES Adoc) (CostCompose.c_frs ES Adoc) opname raw max)) ->
+    exists vv,
+      CoerceSpec.ref_variable_values E dt (ao_vardefs o) raw = Some vv /\
+      CoerceSpec.ref_argument_values E dt (af_argdefs (c_field c))
+        (map (fun p => match p with (k, l) => (k, CoerceSpec.abs_lit vv l) end) (af_args (c_field c)))
+      = Some (c_args c).
+Proof. exact CostRealDoc.accepted_document_calls_reference_coerced. Qed.
+
+Theorem C14_scalars_are_leaves_decidable : forall S,
+  CostRealDoc.scalars_leavesb S = true -> CostRealDoc.scalars_are_leaves S.
+Proof. exact CostRealDoc.scalars_leavesb_spec. Qed.
+
 Print Assumptions C14_checked_mul_spec.
 Print Assumptions C14_checked_add_spec.
 Print Assumptions C14_select_op_spec.
@@ -651,3 +717,7 @@ Print Assumptions C14_usage_from_c04.
 Print Assumptions C14_c04_nodes_cost_calls_all_partial.
 Print Assumptions C14_usage_ok_only_mentioned_variables.
 Print Assumptions C14_projections_cost_calls_partial.
+Print Assumptions C14_accepted_document_argument_names_unique.
+Print Assumptions C14_coercion_silent_fields_named_once.
+Print Assumptions C14_accepted_document_calls_reference_coerced.
+Print Assumptions C14_scalars_are_leaves_decidable.
